@@ -1,0 +1,84 @@
+// SPDX-FileCopyrightText: 2026 The Pion community <https://pion.ly>
+// SPDX-License-Identifier: MIT
+
+//go:build verif
+
+package rtpfb
+
+import (
+	"time"
+
+	"github.com/pion/rtcp"
+)
+
+// VerifTimeFactory exposes the unexported timeFactory option.
+func VerifTimeFactory(f func() time.Time) Option { return timeFactory(f) }
+
+// VerifAck is the exported form of acknowledgement.
+type VerifAck struct {
+	SequenceNumber uint16
+	Arrived        bool
+	Arrival        time.Time
+	ECN            rtcp.ECN
+}
+
+func verifAcks(in []acknowledgement) []VerifAck {
+	out := make([]VerifAck, len(in))
+	for i, a := range in {
+		out[i] = VerifAck{SequenceNumber: a.sequenceNumber, Arrived: a.arrived, Arrival: a.arrival, ECN: a.ecn}
+	}
+
+	return out
+}
+
+// VerifConvertTWCC exposes convertTWCC.
+func VerifConvertTWCC(feedback *rtcp.TransportLayerCC) []VerifAck {
+	return verifAcks(convertTWCC(feedback))
+}
+
+// VerifConvertCCFB exposes convertCCFB.
+func VerifConvertCCFB(ts time.Time, feedback *rtcp.CCFeedbackReport) (time.Duration, map[uint32][]VerifAck) {
+	d, m := convertCCFB(ts, feedback)
+	out := make(map[uint32][]VerifAck, len(m))
+	for k, v := range m {
+		out[k] = verifAcks(v)
+	}
+
+	return d, out
+}
+
+// VerifHistory exposes the unexported history.
+type VerifHistory struct{ h *history }
+
+// VerifNewHistory exposes newHistory.
+func VerifNewHistory() *VerifHistory { return &VerifHistory{h: newHistory()} }
+
+// AddOutgoing exposes history.addOutgoing.
+func (v *VerifHistory) AddOutgoing(ssrc uint32, rtpSeq uint16, isTWCC bool, twccSeq uint16, size int, dep time.Time) {
+	v.h.addOutgoing(ssrc, rtpSeq, isTWCC, twccSeq, size, dep)
+}
+
+// OnTWCCFeedback exposes history.onTWCCFeedback.
+func (v *VerifHistory) OnTWCCFeedback(ts time.Time, a VerifAck) (time.Duration, bool) {
+	return v.h.onTWCCFeedback(ts, acknowledgement{
+		sequenceNumber: a.SequenceNumber, arrived: a.Arrived, arrival: a.Arrival, ecn: a.ECN,
+	})
+}
+
+// OnCCFBFeedback exposes history.onCCFBFeedback.
+func (v *VerifHistory) OnCCFBFeedback(ts time.Time, ssrc uint32, a VerifAck) (time.Duration, bool) {
+	return v.h.onCCFBFeedback(ts, ssrc, acknowledgement{
+		sequenceNumber: a.SequenceNumber, arrived: a.Arrived, arrival: a.Arrival, ecn: a.ECN,
+	})
+}
+
+// BuildReport exposes history.buildReport.
+func (v *VerifHistory) BuildReport() []PacketReport { return v.h.buildReport() }
+
+// Sizes returns the sizes of the internal maps (packets, twccToCounter, ssrcSeqNrToCounter).
+func (v *VerifHistory) Sizes() (int, int, int) {
+	v.h.lock.RLock()
+	defer v.h.lock.RUnlock()
+
+	return len(v.h.packets), len(v.h.twccToCounter), len(v.h.ssrcSeqNrToCounter)
+}
